@@ -6,6 +6,7 @@ COMMON_ASSUME = [
     'S1 logging disabled',
 ]
 STUBVAL = Script('stub-validation', ['-m', 'vlib.validate_stubs'], timeout=300)
+E2_HDR = Script('E2 header-parser agreement lemma (AST->SMT over 48 symbolic bits)', ['-m', 'vlib.e2_header'], timeout=300)
 
 
 def spec(prop, tier, seed=0):
@@ -128,6 +129,7 @@ def spec_c02(tier, seed):
     return dict(
         conds=[
             STUBVAL,
+            E2_HDR,
             Cond('c02_codec', 'c_roundtrip', parts=parts, backends=be, timeout=300),
             Cond('c02_codec', 'c_bits24', backends=be, timeout=120),
             Cond('c02_codec', 'c_pack_position', backends=be, timeout=120),
@@ -637,6 +639,7 @@ def spec_c12(tier, seed):
     return dict(
         conds=[
             STUBVAL,
+            E2_HDR,
             Cond('c12_hostile', 'c_bytes_to_frames', parts=l1, backends=('model',), timeout=300),
             Cond('c12_hostile', 'c_frames_to_endpoint', parts=l2, timeout=400),
             Cond('c12_hostile', 'c_app_failure', parts=app, timeout=300),
@@ -656,7 +659,7 @@ def spec_c12(tier, seed):
                 'layer 2: one hostile frame (thorough: two, all type pairs) after 5 contexts, both roles',
                 'application failures: 7 entry points x 5 manners x 3 adapters'],
         outside=['bodies longer than 20 bytes (only the copied payload grows)', 'claimed lengths between the bound and the field maximum',
-                 'native header parser on arbitrary bytes (it ORs two symbolic integers, which the engine realises)'],
+                 'the native back end on arbitrary bytes is covered through the E2 lemma "native and cbitstruct header parsers agree on every 6-byte header" plus the identical per-type parse methods; the native bit helpers on arbitrary bytes by C02 c_unpack_position / c_bits24 / c_parse_type'],
         functions=['rsocket.frame_parser.FrameParser.receive_data', 'rsocket.frame.parse_or_ignore', 'rsocket.frame.parse_header_cbitstruct',
                    'rsocket.frame.SetupFrame.parse', 'rsocket.frame.LeaseFrame.parse', 'rsocket.frame.KeepAliveFrame.parse', 'rsocket.frame.RequestResponseFrame.parse',
                    'rsocket.frame.RequestStreamFrame.parse', 'rsocket.frame.RequestChannelFrame.parse', 'rsocket.frame.RequestNFrame.parse', 'rsocket.frame.CancelFrame.parse',
